@@ -17,10 +17,19 @@
     hence the same as the client of a fresh server after one refresh on the same store and errors
     ([C15_diagnostics_history_independent]); the pinned bookkeeping (before F7) is refuted by a
     witness. That the errors of a compilation depend only on the store and the disk is the
-    determinism of the compiler (C06); liveness on failing requests (F6) and the timing of
+    determinism of the compiler (C06). The main loop itself is modelled too (Model/Loop.v:
+    notifications change the texts and mark the state stale; a request or an idle second
+    refreshes first — every folder evaluated again on the current texts, diagnostics
+    published — and a request is answered from that evaluation; texts, evaluation and handlers
+    are parameters): after any history of notifications, requests and idle seconds, a request is
+    answered, and the client shows diagnostics, exactly as with a server just started on the
+    current texts ([C15_loop_history_independent]); a notification that does not mark the state
+    stale breaks this (witness). The loop model has no executable counterpart in the harness
+    (the loop lives in the binary): its conclusion is what the history-against-fresh-server
+    monitor checks on the real oal-lsp. Liveness on failing requests (F6) and the timing of
     refreshes are carried by the monitors on the real binary. *)
 From Oal Require Import Text Position PositionProofs Lsp LspProofs.
-From Oal Require Diag DiagProofs.
+From Oal Require Diag DiagProofs Loop LoopProofs.
 
 Theorem C15_docs_track_client : forall h s,
   wf_history s h -> run s (map ev_to_server h) = Some (client_run s h).
@@ -94,3 +103,49 @@ Example C15_refresh_clears :
   (Diag.vget (Diag.s_view st1) 2%N, Diag.vget (Diag.s_view st1) 3%N, Diag.s_reported st1) = ([7%N], [8%N], [2%N; 3%N]) /\
   (Diag.vget (Diag.s_view st2) 2%N, Diag.vget (Diag.s_view st2) 3%N, Diag.s_reported st2) = ([], [], []).
 Proof. exact DiagProofs.ex_refresh_clears. Qed.
+
+(** the main loop: answers and diagnostics after any history = those of a server just started on the current texts *)
+Theorem C15_loop_request_after_history :
+  forall (world fstate req ans : Type) (docs_of : world -> list Diag.loc)
+         (eval_folders : world -> fstate * list (Diag.loc * Diag.diag)) (handle : fstate -> world -> req -> ans)
+         (w : world) (fs0 : fstate) (h : list (Loop.event world req)) (r : req),
+  let w' := Loop.world_after w h in
+  let '(s, answers) := Loop.run docs_of eval_folders handle (Loop.start w fs0) (h ++ [Loop.Request r]) in
+  last answers (handle fs0 w r) = handle (fst (eval_folders w')) w' r /\
+  (forall l, Diag.vget (Diag.s_view (Loop.l_sc s)) l = Diag.errs_of l (snd (eval_folders w'))) /\
+  Loop.l_world s = w'.
+Proof. exact LoopProofs.request_after_history. Qed.
+Print Assumptions C15_loop_request_after_history.
+
+Theorem C15_loop_history_independent :
+  forall (world fstate req ans : Type) (docs_of : world -> list Diag.loc)
+         (eval_folders : world -> fstate * list (Diag.loc * Diag.diag)) (handle : fstate -> world -> req -> ans)
+         (w : world) (fs0 fs1 : fstate) (h : list (Loop.event world req)) (r : req),
+  let w' := Loop.world_after w h in
+  let '(s, answers) := Loop.run docs_of eval_folders handle (Loop.start w fs0) (h ++ [Loop.Request r]) in
+  let '(s', answers') := Loop.run docs_of eval_folders handle (Loop.start w' fs1) [Loop.Request r] in
+  last answers (handle fs0 w r) = last answers' (handle fs1 w' r) /\
+  forall l, Diag.vget (Diag.s_view (Loop.l_sc s)) l = Diag.vget (Diag.s_view (Loop.l_sc s')) l.
+Proof. exact LoopProofs.loop_history_independent. Qed.
+Print Assumptions C15_loop_history_independent.
+
+Theorem C15_loop_idle_publishes_current_errors :
+  forall (world fstate req ans : Type) (docs_of : world -> list Diag.loc)
+         (eval_folders : world -> fstate * list (Diag.loc * Diag.diag)) (handle : fstate -> world -> req -> ans)
+         (w : world) (fs0 : fstate) (h : list (Loop.event world req)),
+  let w' := Loop.world_after w h in
+  forall l, Diag.vget (Diag.s_view (Loop.l_sc (fst (Loop.run docs_of eval_folders handle (Loop.start w fs0) (h ++ [Loop.Idle]))))) l
+            = Diag.errs_of l (snd (eval_folders w')).
+Proof. exact LoopProofs.idle_after_history. Qed.
+Print Assumptions C15_loop_idle_publishes_current_errors.
+
+Example C15_lazy_notification_refuted :
+  let docs_of (w : N) := [1%N] in
+  let eval_folders (w : N) := (w, [(1%N, w)]) in
+  let handle (fs w r : N) := fs in
+  let s0 : Loop.lstate N N := Loop.start 5%N 0%N in
+  let s1 := fst (Loop.step docs_of eval_folders handle s0 (Loop.Request 0%N)) in
+  let s2 := fst (Loop.step_lazy docs_of eval_folders handle s1 (Loop.Notify (fun _ => 6%N))) in
+  let '(s3, a) := Loop.step docs_of eval_folders handle s2 (Loop.Request 0%N) in
+  a = Some 5%N /\ Diag.vget (Diag.s_view (Loop.l_sc s3)) 1%N = [5%N] /\ Loop.l_world s3 = 6%N.
+Proof. exact LoopProofs.lazy_notification_is_stale. Qed.
